@@ -162,6 +162,8 @@ def r5_4(ctx):
                               for e in stores_of(st.trace, attr="state")) for st, ex in outs]
                 con = f"working-gate:auto={auto},worker={has_worker},component={comp}"
                 ctx.instance(con, cells=len(outs), sample={"auto_task": auto, "has_worker": has_worker, "component": comp, "stores": stored})
+                if has_worker and comp == "none":
+                    ctx.require(stored and all(stored), f"positive control failed: a READY task with a worker is not moved to WORKING in the model ({con})")
                 if not auto and not has_worker and any(stored):
                     ctx.violation("working-gate:unserved", wf_check.loc(),
                                   "a non-automatic READY task without any allocated worker can become WORKING (and then FINISHED) -- an unservable task could report success")
